@@ -31,6 +31,10 @@ structure Task where
   wi : Nat := 0
   phase : Nat := 0
   finished : Bool := false
+  /-- reader tasks: index into `Cfg.rs`, head request, token of the key's commit when the tasks start -/
+  ri : Nat := 0
+  head : Bool := false
+  oldTok : Option Tok := none
 
 structure ConcSt where
   c : Cfg := {}
@@ -43,6 +47,9 @@ structure ConcSt where
   seen : List (Path × Gen) := []
   trace : List String := []
   bad : List String := []
+  /-- keys whose commit point the instance's metadata cache holds (within one instance the cache is
+  coherent: commits and loads happen inside the per-key section) -/
+  cacheKeys : List Path := []
 
 def gensOf (be : Backend) : List (Path × Gen) :=
   be.filterMap (fun pe => match pe.1 with | .gen k g => some (k, g) | _ => none)
@@ -65,7 +72,11 @@ def act (cs : ConcSt) (i : Nat) (a : WAct) : ConcSt :=
   | none => { cs with bad := cs.bad ++ [s!"w{i}:{repr a}"] }
   | some _ =>
       let c' := step cs.c (.w i a)
-      { cs with c := c', seen := (gensOf c'.be).foldl (fun s kg => if s.contains kg then s else s ++ [kg]) cs.seen }
+      let t := getWr cs i
+      let ck :=
+        if a = .commit then (if t.del then cs.cacheKeys.filter (· != t.k) else if cs.cacheKeys.contains t.k then cs.cacheKeys else t.k :: cs.cacheKeys)
+        else cs.cacheKeys
+      { cs with c := c', cacheKeys := ck, seen := (gensOf c'.be).foldl (fun s kg => if s.contains kg then s else s ++ [kg]) cs.seen }
 
 def acts (cs : ConcSt) (i : Nat) (as : List WAct) : ConcSt := as.foldl (fun cs a => act cs i a) cs
 
@@ -155,6 +166,59 @@ def releaseWriter (cs : ConcSt) (ti : Nat) (t : Task) : ConcSt × String :=
     | 7 => (setTask (act cs (i + 1) .commit) ti { t with phase := 8 }, s!"d:meta/{showKey t.a}")
     | _ => let d := reclaimDesc cs (i + 1); (finishPlain ti (act cs (i + 1) .reclaim) t, d)
 
+/-- does some task hold the per-key critical section of `k` (moka's `and_try_compute_with`) while it is
+parked at a backend call? -/
+def sectionHeld (cs : ConcSt) (k : Path) : Bool :=
+  cs.tasks.any (fun t =>
+    !t.finished &&
+    (if t.kind = "put" then t.a == k && (t.phase == 1 || t.phase == 2 || t.phase == 3)
+     else if t.kind = "mput" then t.a == k && (t.phase == 2 || t.phase == 3 || t.phase == 4)
+     else if t.kind = "del" then t.a == k && (t.phase == 1 || t.phase == 2)
+     else if t.kind = "copy" || t.kind = "ren" then
+       (t.a == k && (t.phase == 1 || t.phase == 6 || t.phase == 7)) || (t.b == k && (t.phase == 3 || t.phase == 4))
+     else if t.kind = "get" || t.kind = "get-warm" then t.a == k && (t.phase == 1 || t.phase == 3)
+     else false))
+
+/-! ### readers (`get_opts`) -/
+
+def getRd (cs : ConcSt) (i : Nat) : Rd := (cs.c.rs[i]?).getD { k := [] }
+
+def rdAct (cs : ConcSt) (i : Nat) : ConcSt := { cs with c := step cs.c (.r i) }
+
+def rdDone (cs : ConcSt) (i : Nat) : Bool := match (getRd cs i).pc with | .done _ => true | _ => false
+
+def payloadDesc (cs : ConcSt) (i : Nat) : String :=
+  let t := getRd cs i
+  let d? : Option Doc := match t.pc with | .checked d _ => some d | .checked2 d _ => some d | _ => none
+  match d? with
+  | some d => match d.gen with | some _ => s!"g:gen/{showKey t.k}" | none => s!"g:data/{showKey t.k}"
+  | none => "g:?"
+
+/-- release a reader task. Cold cache: start → `get meta/k` (resolve + check) → payload get → on a
+vanished payload `get meta/k` (re-resolve + re-check) → payload get. Warm cache: resolve + check happen
+at the start. -/
+def releaseReader (cs : ConcSt) (ti : Nat) (t : Task) : ConcSt × String :=
+  let i := t.ri
+  let fin (cs : ConcSt) (ph : Nat) : ConcSt := setTask cs ti { t with phase := ph, finished := rdDone cs i }
+  let addCache (cs : ConcSt) : ConcSt :=
+    if (docOf cs.c.be t.a).isSome && !cs.cacheKeys.contains t.a then { cs with cacheKeys := t.a :: cs.cacheKeys } else cs
+  match t.phase with
+  | 0 =>
+      -- not started; a cached commit point answers the resolve at once (no backend call)
+      let cs := tick (tick cs)
+      -- `get_meta`: a cached commit point answers at once, without the per-key section; a miss loads
+      -- inside the section (and waits for it)
+      if cs.cacheKeys.contains t.a then
+        let rd := { getRd cs i with cached := docOf cs.c.be t.a }
+        let cs := { cs with c := { cs.c with rs := cs.c.rs.set i rd } }
+        (fin (rdAct (rdAct cs i) i) 2, "start")
+      else if sectionHeld cs t.a then (setTask cs ti { t with phase := 9 }, "start")
+      else (setTask cs ti { t with phase := 1 }, "start")
+  | 1 => (fin (rdAct (rdAct (addCache cs) i) i) 2, s!"g:meta/{showKey t.a}")
+  | 2 => let d := payloadDesc cs i; (fin (rdAct cs i) 3, d)
+  | 3 => (fin (rdAct (rdAct (addCache cs) i) i) 4, s!"g:meta/{showKey t.a}")
+  | _ => let d := payloadDesc cs i; (fin (rdAct cs i) 5, d)
+
 /-! ### the collector -/
 
 def genLt (a b : Path × Gen) : Bool := pathLt a.1 b.1 || (a.1 == b.1 && decide (a.2.id < b.2.id))
@@ -229,15 +293,35 @@ def releaseGc (cs : ConcSt) (ti : Nat) (t : Task) : ConcSt × String :=
       let cs1 := { cs with c := c1 }
       (if gcDone c1 then setTask cs1 ti { t with finished := true } else cs1, d)
 
+/-- readers that were blocked at the section of their key (phase 9) and can go on: the commit point is
+cached now (the holder committed) or they load it themselves -/
+def wakeBlocked (cs : ConcSt) : ConcSt :=
+  (List.range cs.tasks.length).foldl (fun cs ti =>
+    match cs.tasks[ti]? with
+    | some t =>
+        if t.phase == 9 && !t.finished && !sectionHeld cs t.a then
+          if cs.cacheKeys.contains t.a then
+            let i := t.ri
+            let rd := { getRd cs i with cached := docOf cs.c.be t.a }
+            let cs := { cs with c := { cs.c with rs := cs.c.rs.set i rd } }
+            let cs := rdAct (rdAct cs i) i
+            setTask cs ti { t with phase := 2, finished := rdDone cs i }
+          else setTask cs ti { t with phase := 1 }
+        else cs
+    | none => cs) cs
+
 def release (cs : ConcSt) (ti : Nat) : ConcSt :=
   match cs.tasks[ti]? with
   | none => cs
   | some t =>
       -- entries naming a task that has already returned are ignored (as the harness does)
-      if t.finished then cs
+      if t.finished || t.phase == 9 then cs
       else
-        let (cs', d) := if t.kind = "gc" then releaseGc cs ti t else releaseWriter cs ti t
-        { cs' with trace := cs'.trace ++ [s!"{ti}:{d}"] }
+        let (cs', d) :=
+          if t.kind = "gc" then releaseGc cs ti t
+          else if t.kind = "get" || t.kind = "get-warm" then releaseReader cs ti t
+          else releaseWriter cs ti t
+        wakeBlocked { cs' with trace := cs'.trace ++ [s!"{ti}:{d}"] }
 
 /-- after the listed releases: run to completion without pre-emption (stay on the task released
 last while it has not returned, else the lowest task id that has not returned) — the harness's
@@ -245,14 +329,44 @@ default continuation -/
 def finishAll : Nat → ConcSt → Option Nat → ConcSt
   | 0, cs, _ => cs
   | fuel + 1, cs, cur =>
-      let unfinished := (List.range cs.tasks.length).filter (fun i => match cs.tasks[i]? with | some t => !t.finished | none => false)
+      let unfinished := (List.range cs.tasks.length).filter (fun i => match cs.tasks[i]? with | some t => !t.finished && t.phase != 9 | none => false)
       match unfinished with
       | [] => cs
       | first :: _ =>
           let pick := match cur with | some c => if unfinished.contains c then c else first | none => first
           finishAll fuel (release cs pick) (some pick)
 
-def parseTask (ws : List String) (wi : Nat) : Option (Task × List Wr) :=
+/-- `get <key> <cond|-> [r=…] [head] [warm]`, cond ::= c+c+…, c ::= im | imx | inm | inmx | ius | iusm | ims | imsm:
+the conditions are built from the key's commit when the tasks start (v1): `im`/`inm` its token, `imx`/`inmx` a
+token nobody holds, `ius`/`ims` its time, `iusm`/`imsm` its time minus one -/
+def parseReader (be : Backend) (k : Path) (cond : String) (rest : List String) : Option Rd :=
+  let v1 := readCold be k
+  let tok : Tok := (v1.map (·.tok)).getD (.foreign 777)
+  let tm : Nat := (v1.map (·.time)).getD 1
+  let cs := if cond = "-" then [] else cond.splitOn "+"
+  let o0 : GetOpts := {}
+  let o1? := cs.foldlM (fun (o : GetOpts) c =>
+    if c = "im" then some { o with ifMatch := some (.tags [tok]) }
+    else if c = "imx" then some { o with ifMatch := some (.tags [.foreign 778]) }
+    else if c = "inm" then some { o with ifNoneMatch := some (.tags [tok]) }
+    else if c = "inmx" then some { o with ifNoneMatch := some (.tags [.foreign 778]) }
+    else if c = "ius" then some { o with ifUnmodifiedSince := some tm }
+    else if c = "iusm" then some { o with ifUnmodifiedSince := some (tm - 1) }
+    else if c = "ims" then some { o with ifModifiedSince := some tm }
+    else if c = "imsm" then some { o with ifModifiedSince := some (tm - 1) }
+    else none) o0
+  match o1? with
+  | none => none
+  | some o1 =>
+      let o2? := rest.foldlM (fun (o : GetOpts) a =>
+        if a = "head" then some { o with head := true }
+        else if a = "warm" then some o
+        else match a.splitOn "=" with
+          | ["r", r] => (parseRange r).map (fun r => { o with range := some r })
+          | _ => none) o1
+      o2?.map (fun o2 => { k := k, o := o2 })
+
+def parseTaskW (ws : List String) (wi : Nat) : Option (Task × List Wr) :=
   match ws with
   | ["gc"] => some ({ kind := "gc" }, [])
   | ["put", k, size, seed] => do
@@ -274,13 +388,34 @@ def parseTask (ws : List String) (wi : Nat) : Option (Task × List Wr) :=
       pure ({ kind := "del", a := k, wi := wi }, [{ k := k, del := true }])
   | _ => none
 
+def parseTask (be : Backend) (ws : List String) (wi : Nat) (ri : Nat) : Option (Task × List Wr × List Rd) :=
+  match ws with
+  | "get" :: k :: cond :: rest => do
+      let k ← parseKey k
+      let rd ← parseReader be k cond rest
+      pure ({ kind := if rest.contains "warm" then "get-warm" else "get", a := k, ri := ri, head := rd.o.head,
+              oldTok := (readCold be k).map (·.tok) }, [], [rd])
+  | _ => (parseTaskW ws wi).map (fun tw => (tw.1, tw.2, []))
+
 def splitOnBar (ws : List String) : List (List String) :=
   ws.foldr (fun w acc => if w = "|" then [] :: acc else match acc with | [] => [[w]] | h :: t => (w :: h) :: t) [[]]
 
-def parseTasks (groups : List (List String)) : Option (List Task × List Wr) :=
-  groups.foldlM (fun (acc : List Task × List Wr) g => do
-    let (t, ws) ← parseTask g acc.2.length
-    pure (acc.1 ++ [t], acc.2 ++ ws)) ([], [])
+def parseTasks (be : Backend) (groups : List (List String)) : Option (List Task × List Wr × List Rd) :=
+  groups.foldlM (fun (acc : List Task × List Wr × List Rd) g => do
+    let (t, ws, rs) ← parseTask be g acc.2.1.length acc.2.2.length
+    pure (acc.1 ++ [t], acc.2.1 ++ ws, acc.2.2 ++ rs)) ([], [], [])
+
+def showRead (cs : ConcSt) (ti : Nat) (t : Task) : String :=
+  let r := getRd cs t.ri
+  let body :=
+    match r.pc with
+    | .done (.err e) => showErr e
+    | .done (.got m rng data) =>
+        let tk := if m.tok = t.oldTok then "old" else "new"
+        if t.head then s!"ok size={m.size} tok={tk}" else s!"ok size={m.size} range={rng.1}..{rng.2} data={showData data} tok={tk}"
+    | .done _ => "?"
+    | _ => "unfinished"
+  s!"r{ti}={body}"
 
 def showFinal (cs : ConcSt) : String :=
   let keys := sortPaths (cs.c.be.filterMap (fun pe => match pe.1 with | .mt k => some k | _ => none))
@@ -288,19 +423,25 @@ def showFinal (cs : ConcSt) : String :=
     match readCold cs.c.be k with
     | some e => s!"{showKey k}={showData e.data}"
     | none => s!"{showKey k}=err:notfound")
+  let rds := (List.range cs.tasks.length).filterMap (fun ti =>
+    match cs.tasks[ti]? with
+    | some t => if t.kind = "get" || t.kind = "get-warm" then some (showRead cs ti t) else none
+    | none => none)
   " ".intercalate cs.trace ++ " | " ++ dumpBackend cs.c.be ++ " | " ++ " ".intercalate reads ++
+    (if rds.isEmpty then "" else " | " ++ " ".intercalate rds) ++
     (if cs.bad.isEmpty then "" else " | bad=" ++ ",".intercalate cs.bad)
 
 /-- the conc part of the C08 protocol -/
 def stepConc (st : St) (conc : Option ConcSt) (ws : List String) : Option (St × Option ConcSt × String) :=
   match ws with
   | "tasks" :: rest =>
-      match parseTasks (splitOnBar rest) with
+      match parseTasks st.w.be (splitOnBar rest) with
       | none => none
-      | some (tasks, wrs) =>
+      | some (tasks, wrs, rds) =>
           let now := 3 * (st.calls + 1)
-          let c : Cfg := { flavor := st.w.flavor, be := st.w.be, nextId := st.w.nextId, clock := now, ws := wrs }
-          some ({ st with calls := st.calls + 1 }, some { c := c, tasks := tasks, seen := gensOf st.w.be }, "ok")
+          let c : Cfg := { flavor := st.w.flavor, be := st.w.be, nextId := st.w.nextId, clock := now, ws := wrs, rs := rds }
+          let warm := tasks.filterMap (fun t => if t.kind = "get-warm" && (docOf st.w.be t.a).isSome then some t.a else none)
+          some ({ st with calls := st.calls + 1 }, some { c := c, tasks := tasks, seen := gensOf st.w.be, cacheKeys := warm.eraseDups }, "ok")
   | ["schedule", ids] =>
       match conc, natList? ids with
       | some cs, some ids =>
